@@ -108,9 +108,15 @@ def wrap(repo: Repo, chk: Check) -> None:
             move_stmt = n
     if move_stmt is None:
         raise AnalysisError(f"{f.where}: the loop moving the collected ops was not found")
-    fl = Flow(f, repo, events={"moved": lambda st, w=move_stmt: st is w})
+    def _pos(st: ast.AST) -> tuple:
+        # a closure walked at its call site is a copy of its statements: identify a statement by its source position
+        return (type(st).__name__, getattr(st, "lineno", None), getattr(st, "col_offset", None), getattr(st, "end_lineno", None))
+
+    fl = Flow(f, repo, events={"moved": lambda st, w=_pos(move_stmt): _pos(st) == w})
     resets = [s for s in fl.stmts(ast.Assign, ast.AnnAssign) if s.reachable and s.loops and isinstance(getattr(s.node, "value", None), ast.List) and not s.node.value.elts
               and ast.unparse(s.node.targets[0] if isinstance(s.node, ast.Assign) else s.node.target) == lst]
+    resets += [s for s in fl.stmts(ast.Expr) if s.reachable and s.loops and isinstance(s.node.value, ast.Call)
+               and norm.match(T("$l.clear()"), s.node.value, {"l": lst}) is not None]
     chk.result(bool(resets) and all(has_event(s, "moved") for s in resets), "C14.wrap", f"{f.key}:flush-before-reset", resets[0].where() if resets else f.where,
                "the pending list is only reset after its ops were moved into the scf.if",
                "the pending list can be reset without moving its ops: those ops stay unguarded and run on every core")
@@ -126,9 +132,20 @@ def wrap(repo: Repo, chk: Check) -> None:
                             "len($l) > 0 and (not $r($o) or $o.parent is not $l[-1].parent)",
                             "len($l) and (not $r($o) or $o.parent_block() is not $l[-1].parent_block())"], flush_if.test, {"l": lst, "r": rule_p})
         ok_cond = m is not None
+    if flush_if is None:
+        # the move lives in a helper walked at its call site: read the condition off the facts that dominate the move
+        for ms in [x for x in fl.stmts(ast.For) if x.reachable and _pos(x.node) == _pos(move_stmt)]:
+            op_vars = {l.target.id for l in ms.loops if isinstance(l, ast.For) and isinstance(l.target, ast.Name)}
+            about_op = [fa for fa in ms.facts if fa.kind == "atom" and (fa.names() & op_vars)]
+            nonempty = bool(has_fact(ms, ["len($l)", "$l", "len($l) > 0"], {"l": lst}))
+            either = [fa for fa in about_op if norm.any_match(
+                ["not $r($o) or $o.parent is not $l[-1].parent", "not $r($o) or $o.parent_block() is not $l[-1].parent_block()"], fa.expr, {"l": lst, "r": rule_p}) is not None]
+            # exactly this disjunction and nothing else about the current op: the group is flushed whenever it holds
+            ok_cond = ok_cond or (nonempty and len(either) == 1 and len(about_op) == 1)
+            flush_if = flush_if or ms.stmt
     chk.result(ok_cond, "C14.wrap", f"{f.key}:flush-condition", f"{f.module.relpath}:{flush_if.lineno if flush_if else f.node.lineno}",
                "a non-empty group is flushed when the next op is not dispatchable or has another parent",
-               f"flush condition is `{ast.unparse(flush_if.test)[:140] if flush_if else None}`; expected `pending and (not rule(op) or op.parent is not pending[-1].parent)`")
+               f"flush condition is `{ast.unparse(flush_if.test)[:140] if isinstance(flush_if, ast.If) else None}`; expected `pending and (not rule(op) or op.parent is not pending[-1].parent)`")
     ifs = [s for s in fl.calls("IfOp") if s.reachable]
     ok_if = any(len(s.node.args) >= 1 and ast.unparse(s.node.args[0]) == cond_p for s in ifs)
     chk.result(ok_if, "C14.wrap", f"{f.key}:guard", ifs[0].where() if ifs else f.where, "the scf.if tests the given core condition", "the scf.if does not test core_cond")
@@ -138,8 +155,8 @@ def wrap(repo: Repo, chk: Check) -> None:
                "the scf.if is not inserted before the first collected op: the group changes its position relative to other ops")
     ok_order = False
     for s in ins:
-        lp = [l for l in s.loops if l is move_stmt]
-        if lp and len(s.node.args) > 1 and depends_on(s.expand(s.node.args[1]), "InsertPoint.before($y)") and ast.unparse(s.node.args[0]) == ast.unparse(move_stmt.target):
+        lp = [l for l in s.loops if _pos(l) == _pos(move_stmt)]
+        if lp and len(s.node.args) > 1 and depends_on(s.expand(s.node.args[1]), "InsertPoint.before($y)") and ast.unparse(s.node.args[0]) == ast.unparse(lp[0].target):
             ok_order = True
     chk.result(ok_order, "C14.wrap", f"{f.key}:order", f.where, "ops are re-inserted before the scf.yield in list order (original order)",
                "collected ops are not re-inserted in list order before the yield")
